@@ -384,6 +384,23 @@ func newCallMode(o *opts) *callMode {
 	return m
 }
 
+// Spans: block A holds the cases that end in a death of the worker (unbounded work on
+// range(1<<62), the known struct-printing crash): small spans spread them over all workers.
+func (m *callMode) Spans(workers int) []span {
+	var out []span
+	cut := func(lo, hi, chunk int64) {
+		for ; lo < hi; lo += chunk {
+			out = append(out, span{lo, min(lo+chunk, hi)})
+		}
+	}
+	total := m.Count()
+	a := min(m.nA, total)
+	cut(0, a, a/int64(workers*6)+1)
+	rest := total - a
+	cut(a, total, min(rest/int64(workers*6)+1, 200000))
+	return out
+}
+
 func (m *callMode) Count() int64 { return m.nA + m.nT + m.nE + m.nE3 + m.nB2 + m.nB3 + m.nS }
 
 func (m *callMode) decode(i int64) callCase {
@@ -669,7 +686,7 @@ func (m *callMode) Key(i int64, kind, detail string) string {
 
 func (m *callMode) Timeout(i int64) time.Duration {
 	if m.isHuge(m.decode(i)) {
-		return 1000 * time.Millisecond
+		return 400 * time.Millisecond
 	}
 	return 0
 }
